@@ -110,6 +110,27 @@ def make(rng, kind, d=2):
         else:
             dims = [[1, 0], [0, 1], [0], np.array([False, True]), [True, True]][rng.integers(0, 5)]
         return mt.WithDims(dims), (lambda: mt.WithDims(dims))
+    if kind == "ChainWithIdentityMember":
+        # a chain one of whose members does nothing (an init_identity seed, an alignment of a shape with itself)
+        import menpo.shape as ms
+        a, ra = make(rng, ["Affine", "Similarity", "Rotation", "NonUniformScale"][rng.integers(0, 4)], d)
+        b, rb = make(rng, ["Translation", "Affine", "UniformScale"][rng.integers(0, 3)], d)
+        which = int(rng.integers(0, 3))
+        pts = gen.general_position(rng, 5, d)
+
+        def ident():
+            if which == 0:
+                return mt.Translation.init_identity(d)
+            if which == 1:
+                return mt.AlignmentSimilarity(ms.PointCloud(pts.copy()), ms.PointCloud(pts.copy()))
+            return mt.Affine.init_identity(d)
+        pos = int(rng.integers(0, 3))
+
+        def build():
+            m = [ra(), rb()]
+            m.insert(pos, ident())
+            return mt.TransformChain(m)
+        return build(), build
     if kind == "TransformChain":
         k = int(rng.integers(2, 5))
         pool = ["Affine", "Similarity", "Rotation", "Translation", "UniformScale", "NonUniformScale", "Homogeneous",
@@ -213,8 +234,11 @@ def honest(t, tol=1e-8):
     if not isinstance(t, mt.Homogeneous):
         return ["not homogeneous"]
     h = np.asarray(t.h_matrix, dtype=float)
-    if h.ndim != 2 or h.shape[0] != h.shape[1] or not np.isfinite(h).all():
+    if h.ndim != 2 or not np.isfinite(h).all():
         return ["malformed matrix"]
+    if h.shape[0] != h.shape[1]:
+        # a projection between spaces of different dimension: legal for the plain Homogeneous class only
+        return [] if type(t) is mt.Homogeneous else ["non-square matrix in a class that is an endomorphism"]
     d = h.shape[0] - 1
     L, tr = h[:d, :d], h[:d, d]
     s = max(1e-12, np.abs(L).max())
